@@ -20,7 +20,10 @@ def check(run, only=None):
         run.add_bounded(out)
     if only in (None, "P"):
         from vlib.companions import parserfuncs as pf
-        pcommon.add_proof(run, "C18", ["parglare.parser.Parser._call_dynamic_filter", "parglare.parser.Parser._check_parser"],
-                          [pf.run_misc],
+        pcommon.add_proof(run, "C18", ["parglare.parser.Parser._call_dynamic_filter", "parglare.parser.Parser._check_parser",
+                                       "parglare.parser.Parser._dynamic_disambiguation"],
+                          [pf.run_misc, pf.run_dyn_disambiguation],
                           "_call_dynamic_filter: unmarked decision => True without the filter, marked => the filter's verdict "
-                          "for exactly these arguments; _check_parser raises iff an unhandled (non-dynamic) conflict exists")
+                          "for exactly these arguments; _check_parser raises iff an unhandled (non-dynamic) conflict exists; "
+                          "_dynamic_disambiguation (LR): the result holds only offered actions, keeps ACCEPT and every unmarked "
+                          "shift/reduction, keeps a marked shift iff the filter accepts it (a rejected one is not taken)")
